@@ -78,6 +78,7 @@ type VerifV2Mesh struct {
 	CellSize    v3.Vec       // size of one cell
 	Vertices    []v3.Vec     // vertex buffer (placeVertices)
 	VertexCells []v3i.Vec    // cell owning each vertex
+	Inside      []int        // computeCornersInside of that cell, as generateTriangles sees it
 	Triangles   [][3]v3i.Vec // generateTriangles run on a vertex buffer holding the cell indices as positions
 }
 
@@ -87,13 +88,14 @@ func VerifV2Buffers(dc *DualContouringV2, s sdf.SDF3) *VerifV2Mesh {
 	_, cells := dc.getCells(s)
 	s2 := &dcSdf{s, map[v3.Vec]float64{}}
 	vertexBuffer, info, infoI := dc.placeVertices(s2, cells)
-	out := &VerifV2Mesh{Cells: cells, Vertices: vertexBuffer, VertexCells: make([]v3i.Vec, len(vertexBuffer))}
+	out := &VerifV2Mesh{Cells: cells, Vertices: vertexBuffer, VertexCells: make([]v3i.Vec, len(vertexBuffer)), Inside: make([]int, len(vertexBuffer))}
 	bb := s2.BoundingBox()
 	out.BoxMin = bb.Min
 	out.CellSize = bb.Size().Div(conv.V3iToV3(cells))
 	idx := make([]v3.Vec, len(vertexBuffer))
 	for _, vi := range info {
 		out.VertexCells[vi.bufIndex] = vi.cellIndex
+		out.Inside[vi.bufIndex] = int(dc.computeCornersInside(s2, vi.cellStart, vi.cellSize))
 		idx[vi.bufIndex] = v3.Vec{X: float64(vi.cellIndex.X), Y: float64(vi.cellIndex.Y), Z: float64(vi.cellIndex.Z)}
 	}
 	ch := make(chan []*sdf.Triangle3, 3*len(info)+1)
